@@ -939,8 +939,11 @@ func (t *glTr) callExpr(c *glCtx, x *ast.CallExpr) string {
 				msg = strings.Trim(lit.Value, "\"`")
 			}
 		}
-		// the operands of the message are evaluated for their panics only when they are plain; not modelled
-		return "EErr " + glStr(name+": "+msg)
+		// A freshly made error is identified by the function that made it, not by its text: rewording a message is
+		// not a change of behaviour (callers test such errors against nil only). The operands of the message are not
+		// evaluated by the model.
+		_ = msg
+		return "EErr " + glStr(name)
 	}
 	// a translated function, an oracle or an external: hoist
 	if c.noCall {
